@@ -8,7 +8,7 @@ use crate::jws::encode_kid;
 use crate::logs::HasLogger;
 use crate::storage;
 use crate::{AccountSync, EndpointSync};
-use acme_common::crypto::Csr;
+use acme_common::crypto::{Csr, X509Certificate};
 use acme_common::error::Error;
 use serde_json::json;
 use std::fmt;
@@ -284,6 +284,17 @@ pub async fn request_certificate(
 		.await
 		.map_err(HttpError::in_err)?;
 	drop(data_builder);
+
+	// Never replace the current certificate by something that is not a certificate for our key
+	let new_crt = X509Certificate::from_pem(crt.as_bytes())
+		.map_err(|e| e.prefix("invalid certificate received"))?;
+	if !new_crt
+		.inner_cert
+		.public_key()?
+		.public_eq(&key_pair.inner_key)
+	{
+		return Err("the received certificate does not match the private key".into());
+	}
 	storage::write_certificate(&cert.file_manager, crt.as_bytes()).await?;
 
 	cert.info(&format!(
